@@ -19,7 +19,7 @@ from ..streams import StdShape, SimRawSink
 ID = 'C16'
 LEVEL = 'exploration'
 TIERS = {
-    'quick': {'runs': 14000, 'deadline_s': 90, 'chunk': 50},
+    'quick': {'runs': 10000, 'deadline_s': 100, 'chunk': 50},
     'thorough': {'runs': 300000, 'deadline_s': 1200, 'chunk': 100},
 }
 RULE = ('one run = either (A) a seeded history of 1-6 operations (query_table / engine.query / query_csv / query_dataframe / in-process CLI; successes of every '
@@ -117,6 +117,12 @@ def gen_op(rng, kind=None, api=None, max_rows=6, pool=40):
         op['header'] = ['id', 'name', 'tag']
         if 'join_rows' in op:
             op['join_header'] = ['key', 'jval', 'jtag']
+        if rng.random() < 0.5:
+            # same column names in another order: the same query text then binds other indices
+            perm = rng.choice([[1, 0, 2], [2, 1, 0], [0, 2, 1], [1, 2, 0]])
+            op['header'] = [op['header'][i] for i in perm]
+            if 'join_header' in op and rng.random() < 0.5:
+                op['join_header'] = [op['join_header'][i] for i in perm]
     if opt.get('init'):
         op['init'] = opt['init']
     if op['api'] == 'csviter' and (opt.get('ragged') or kind in ('star', 'except', 'err_unknown_join') or not rows):
@@ -460,7 +466,7 @@ def execute(sc):
         res['nontrivial'] = 1 if len(sc['ops']) >= 2 else 0
         bump(counters, 'part.A')
         for i, (out, ref) in enumerate(zip(obs['outcomes'], refs)):
-            if out != ref:
+            if core.canon(out) != core.canon(ref):
                 res.update(verdict='violation', oracle='history', detail={'op_index': i, 'kind': sc['ops'][i]['kind'], 'in_history': out, 'alone': ref,
                                                                          'preceded_by': [o['kind'] for o in sc['ops'][:i]]})
                 break
@@ -496,7 +502,7 @@ def execute(sc):
     if obs['switches'] >= 6:
         bump(counters, 'probe.switches_ge_6')
     for i, (out, ref) in enumerate(zip(obs['outcomes'], refs)):
-        if out != ref:
+        if core.canon(out) != core.canon(ref):
             res.update(verdict='violation', oracle='interleaving', detail={'thread': i, 'kind': kinds[i], 'others': [k for j, k in enumerate(kinds) if j != i],
                                                                           'interleaved': out, 'alone': ref, 'schedule': obs['sched'][:200]})
             break
